@@ -3,7 +3,7 @@
    values; the models compute with explicit wrap-around (Lib/Wrap64.v), so "in bounds" below is a
    statement about plain integers derived from wrapped arithmetic.  CRC32C, the bloom decoder,
    the JSON decoder and the decompressors are arbitrary functions (section variables). *)
-From BS Require Import Lib.Bytes Lib.Wrap64 Model.Framing Model.Validate Model.FilterRegion Model.Footer
+From BS Require Import Lib.Bytes Lib.Wrap64 Lib.Crc32c Model.Framing Model.Validate Model.FilterRegion Model.Footer
   Proofs.FramingProofs Proofs.ValidateProofs Proofs.FilterRegionProofs Proofs.FooterProofs.
 From Coq Require Import List ZArith NArith Bool Lia.
 Import ListNotations.
@@ -121,3 +121,13 @@ Proof. vm_compute. split; reflexivity. Qed.
 Example C19_additive_check_unsound :
   exists m limit, meta_i64 m /\ i64 limit /\ validate_additive m limit = true /\ ~ meta_in m limit /\ validate m limit = false.
 Proof. exact validate_additive_unsound. Qed.
+
+(* known finding c19-valid-section-splice: the guarantee of C19_no_wrong_rows has no counterpart for
+   filter sections -- kept as the refuted statement with its witness *)
+Theorem C19_filter_section_unbound_refuted :
+  exists (file file' : str) (b : blockJ) (fs fs' : filters),
+    lenZ file' = lenZ file /\
+    read_filters crc32c (fun _ => true) file b = Some fs /\
+    read_filters crc32c (fun _ => true) file' b = Some fs' /\ fs' <> fs.
+Proof. exact filter_section_unbound. Qed.
+Print Assumptions C19_filter_section_unbound_refuted.
